@@ -8,8 +8,9 @@ class C02(Spec):
     lean_deps = ("C01", "C03")
     required_theorems = ("C02.root_cfg_independent", "C02.root_cfg_independent_from", "C02.roots_total",
                          "C02.hashNode_Hashed", "C02.memset_commit_eq_set", "C02.cache_transparent_full_false",
-                         "C02.cache_transparent_partial")
-    partial = ("C02.cache_transparent_partial",)
+                         "C02.cache_transparent_partial", "C02.memOK_quiescent",
+                         "C02.memset_commit_eq_set_total")
+    partial = ("C02.cache_transparent_partial", "C02.memset_commit_eq_set", "C02.memset_commit_eq_set_total", "C02.root_cfg_independent_from")
     refuted = ("C02.cache_transparent_full_false",)
     level_text = ("Lean 4 theorems over the executable model of Node.Hash / SetKVPair / MemSet / Commit: for every pair of "
                   "configurations (prefix, prune, memTree, memVal, MVCC), every list of blocks of ordered writes and even "
@@ -30,7 +31,8 @@ class C02(Spec):
                   "{update-of-same-content,no-op-update} — the last victim means a committed root is unreadable after a process "
                   "restart: dangling child keys were persisted); "
                   "cache_transparent_partial holds when memTree only holds committed records.")
-    level_note = ("Two executable models: the eager one (C02: whole trees, memTree/tkCloseCache transparent) carries the "
+    level_note = ("Review follow-up: `roots` reads ONE configuration flag (pfx; prune forces it): root_cfg_independent is the statement that prefix and block height never reach a root hash; independence from prune/memTree/memVal/mvcc holds by construction of the model and is established for the code by the differential run only (and fails for memTree: the finding). root_cfg_independent_from does not cover trees loaded under MVCC (values elided, not Hashed); memset_commit_eq_set assumes a non-empty batch and a Commit right after the MemSet, memset_commit_eq_set_total removes the panic disjunct (C01.save_total) under the named hypothesis that the tree loaded for the parent is hashed-or-fresh (HoFT; true of every loaded tree, not derived from a reachability invariant). memOK_quiescent: MemOK holds at the quiescent points of the MemSet->Commit discipline under content addressing (toggle accounted for), on the abstract protocol C02.Mem, which is tied to the code by the hunt run / the lazy model only. The frame clause (root independent of earlier unrelated updates) is C04.pending_root_frame. "
+                  "Two executable models: the eager one (C02: whole trees, memTree/tkCloseCache transparent) carries the "
                   "theorems and is the driver's model for the stores without memTree; the literal lazy one (C02L, driver line "
                   "'lazy': nodes fetched one at a time through node cache -> memTree -> database, memTree with its toggle Add, "
                   "Hash moving obsolete/updated nodes into memTree, state kept after a panic) is the driver's model for every "
